@@ -134,6 +134,7 @@ type system struct {
 	settleMisses          int
 	skipped               int
 	usedErr, usedRangeErr bool
+	abandoned             bool // callers are stuck: do not Close() the group under them
 	stale                 bool // sibling slices of a failed range query were not seen aborted in time: case is inconclusive
 }
 
@@ -156,7 +157,7 @@ func (s *system) shutdown() {
 	for s.unfinished() > 0 && time.Now().Before(deadline) {
 		time.Sleep(time.Millisecond)
 	}
-	if s.unfinished() > 0 {
+	if s.unfinished() > 0 || s.abandoned {
 		return
 	}
 	done := make(chan struct{})
@@ -646,6 +647,9 @@ func TestPropMachine(t *testing.T) {
 				rec.Count("inconclusive_cases", 1)
 				inconclusive++
 				t.Logf("inconclusive: %v", err)
+				if inconclusive > 3 {
+					rt.Fatalf("too many inconclusive cases - not a verdict")
+				}
 				rt.Skip()
 			}
 			class, nt := s.classify()
@@ -769,6 +773,7 @@ func runStress(c Case) (res stressResult, err error) {
 	type k struct{ q, wave int }
 	results := map[k][]string{}
 	var pan any
+	var progress atomic.Int64
 	gate := make(chan struct{})
 	for _, order := range c.Callers {
 		wg.Add(1)
@@ -786,6 +791,7 @@ func runStress(c Case) (res stressResult, err error) {
 				for _, qi := range order {
 					qi = qi % len(c.Questions)
 					r, err := s.ask(c.Questions[qi], wave)
+					progress.Add(1)
 					if err == nil {
 						mu.Lock()
 						results[k{qi, wave}] = append(results[k{qi, wave}], r)
@@ -798,10 +804,29 @@ func runStress(c Case) (res stressResult, err error) {
 	close(gate)
 	done := make(chan struct{})
 	go func() { wg.Wait(); close(done) }()
-	select {
-	case <-done:
-	case <-time.After(120 * time.Second):
-		return res, fmt.Errorf("%w: stress callers did not finish within 120s", errInconclusive)
+	// quiescence rule, free-running form: the server holds nothing, yet no caller has completed a question for
+	// `bound`; anything else that is merely slow is inconclusive
+	bound := time.Duration(hangBound.Load()) * time.Second
+	started := time.Now()
+	lastProgress, lastChange := progress.Load(), time.Now()
+wait:
+	for {
+		select {
+		case <-done:
+			break wait
+		case <-time.After(5 * time.Millisecond):
+		}
+		if p := progress.Load(); p != lastProgress || s.g.InFlight() > 0 {
+			lastProgress, lastChange = p, time.Now()
+		}
+		if time.Since(lastChange) > bound {
+			s.abandoned = true
+			return res, errHang
+		}
+		if time.Since(started) > 180*time.Second {
+			s.abandoned = true
+			return res, fmt.Errorf("%w: stress callers did not finish within 180s", errInconclusive)
+		}
 	}
 	res.stats = s.g.Stats()
 	res.nontrivial = len(c.Callers) >= 2 && res.stats.MaxKeysAtOnce >= 2
@@ -850,11 +875,22 @@ func driveStress(t *testing.T) {
 	rapid.Check(t, func(rt *rapid.T) {
 		c := genStress(rt)
 		res, err := runStress(c)
+		if errors.Is(err, errHang) {
+			if _, err2 := runStress(c); errors.Is(err2, errHang) {
+				hangBound.Store(6)
+				err = fmt.Errorf("%w (free-running callers; reproduced on a second run of the same schedule)", errHang)
+			} else {
+				err = fmt.Errorf("%w: callers stalled once but not when the schedule was run again", errInconclusive)
+			}
+		}
 		if errors.Is(err, errInconclusive) {
 			rec.Case("inconclusive:stress", false, "", nil)
 			rec.Count("inconclusive_cases", 1)
 			inconclusive++
 			t.Logf("inconclusive: %v", err)
+			if inconclusive > 3 {
+				rt.Fatalf("too many inconclusive cases - not a verdict")
+			}
 			return
 		}
 		c.Class = stressClass(c)
@@ -973,6 +1009,11 @@ func TestReplay(t *testing.T) {
 	case "stress":
 		for i := 0; i < 10 && err == nil; i++ {
 			_, err = runStress(c)
+			if errors.Is(err, errHang) {
+				if _, err2 := runStress(c); !errors.Is(err2, errHang) {
+					err = fmt.Errorf("%w: callers stalled once but not when the schedule was run again", errInconclusive)
+				}
+			}
 		}
 	case "race":
 		t.Logf("a data-race report cannot be replayed deterministically; stored report:\n%s", c.Report)
